@@ -375,3 +375,64 @@ def deepboom(a, b):
     w = b + 1
     v = boom(u, w)
     return v + w
+
+
+def cmplocals(a, b):
+    lo = a + 1
+    hi = b * 2
+    r = 0
+    if lo < hi:
+        r = 1
+    k = lo
+    m = hi - lo
+    t = k > m
+    return r
+
+
+def forlist(a, b):
+    xs = [a, b, 3]
+    s = 0
+    m = 0
+    for v in xs:
+        if v > 1:
+            s = s + v
+        m = m + 1
+    return s
+
+
+def retloop(a, b):
+    i = 0
+    while i < 3:
+        if i == a:
+            return i + b
+        i = i + 1
+    z = b * 2
+    return z
+
+
+def objarg(a, b):
+    o = Box(a)
+    p = Box(b)
+    d = bump(o, p)
+    r = o.w + p.v
+    return r
+
+
+def bump(x, y):
+    x.w = y.v + 1
+    y.v = 0
+    return 0
+
+
+def strs(a, b):
+    s = "x"
+    t = "y"
+    if a > 0:
+        s = s + t
+    n = len(s) + b
+    return n
+
+
+def deepcall(a, b):
+    r = inc(inc(a)) + pos(inc(b))
+    return r
